@@ -393,6 +393,7 @@ theorem abstract_possible_type (s : SchemaD) (execSub) (nodes : List FNode) (n :
   | null => exact absurd rfl hv
   | leaf j => rcases hk with hk | hk <;> simp [completeValue, hk] at h
   | list vs => rcases hk with hk | hk <;> simp [completeValue, hk] at h
+  | raise vs msg ext => rcases hk with hk | hk <;> simp [completeValue, hk] at h
   | obj rt =>
     refine ⟨rt, rfl, ?_⟩
     rcases hk with hk | hk
@@ -445,12 +446,30 @@ theorem nullable_null_no_error (s : SchemaD) (execSub) (nodes : List FNode) (t :
   | nonNull t => simp [Ty.isNonNull] at ht
 
 /-- errors of list items carry the item index; items are completed independently and in order -/
-theorem list_items_independent (f : Path → RVal → R (Data × List Err)) (path : Path) (i : Nat) (v : RVal) (vs : List RVal) :
-    completeList f path i (v :: vs) =
-      (do let (d, e) ← f (path ++ [.idx i]) v
-          let (ds, es) ← completeList f path (i + 1) vs
-          pure (d :: ds, e ++ es)) := by
-  simp [completeList]
+theorem list_items_independent (f : Path → RVal → R (Data × List Err)) (path : Path) (i : Nat) (v : RVal) (vs : List RVal)
+    (d : Data) (e : List Err) (ds : List Data) (es : List Err)
+    (h1 : f (path ++ [.idx i]) v = .ok (d, e)) (h2 : completeList f path (i + 1) vs = .ok (ds, es)) :
+    completeList f path i (v :: vs) = .ok (d :: ds, e ++ es) := by
+  simp [completeList, h1, h2, bind, Except.bind, pure, Except.pure, Functor.map, Except.map]
+
+/-- a `ResolverError` raised while a LATER item is completed interrupts the list, and the errors of the items already
+    completed stay recorded (the error accumulator is not rolled back) -/
+theorem list_interrupted_keeps_errors (f : Path → RVal → R (Data × List Err)) (path : Path) (i : Nat) (v : RVal) (vs : List RVal)
+    (d : Data) (e : List Err) (k : ErrKind) (l : Option (List Nat)) (inner : List Err)
+    (h1 : f (path ++ [.idx i]) v = .ok (d, e)) (h2 : completeList f path (i + 1) vs = .error (.raised k l inner)) :
+    completeList f path i (v :: vs) = .error (.raised k l (e ++ inner)) := by
+  simp [completeList, h1, h2, bind, Except.bind, pure, Except.pure, Functor.map, Except.map]
+
+/-- **completion_error_is_field_error**: a `ResolverError` raised while the value of a field is being completed
+    (`resolve_type` raising, a lazy iterable raising, a sub-selection whose `@skip/@include` condition cannot be
+    evaluated) makes THAT field null with one error carrying its response path; errors recorded before stay. -/
+theorem completion_error_is_field_error (s : SchemaD) (w : World) (execSub) (parent : String) (path : Path)
+    (node : FNode) (more : List FNode) (fd : FieldD) (a : String) (v : RVal) (k : ErrKind) (l : Option (List Nat)) (inner : List Err)
+    (ha : (node.args.find? (·.1 == parent)).map (·.2) = some (some a)) (hw : w parent fd.name path a = .val v)
+    (hc : completeValue s execSub (node :: more) fd.type path v = .error (.raised k l inner)) :
+    resolveField s w execSub parent path (node :: more) fd
+      = .ok (.null, inner ++ [{ path := path, locs := l.getD [node.loc], kind := k }]) := by
+  simp [resolveField, ha, hw, hc]
 
 /-- position of a response value inside a `Data` tree -/
 def Data.at : Data → Path → Option Data
@@ -463,11 +482,14 @@ def Data.at : Data → Path → Option Data
     | none => none
   | _, _ => none
 
-/-- The null/error correspondence over a whole response. PROVED in `Props/C04_nulls.lean` (`null_error_bijection`). -/
+/-- The null/error correspondence over a whole response. PROVED in `Props/C04_nulls.lean` (`null_error_bijection`):
+    no two errors share a path, and every error sits AT or BELOW an error whose path is a position of the data holding
+    `null`. "Below" happens exactly when a `ResolverError` interrupts the completion of a field value (7b8e151): the
+    field becomes `null` and the errors already recorded for the items completed before stay in the response. -/
 def NullErrorBijection (s : SchemaD) (doc : Doc) (vars : Vars) (w : World) (cf fuel : Nat) (root : String) (sels : List Sel) : Prop :=
   ∀ d es, executeFields s doc vars w cf fuel root [] sels = .ok (d, es) →
-    (es.map (·.path)).Nodup ∧ ∀ e ∈ es, Data.at d e.path = some .null
-
+    (es.map (·.path)).Nodup ∧
+    ∀ e ∈ es, ∃ e' ∈ es, ∃ suf, e.path = e'.path ++ suf ∧ Data.at d e'.path = some .null
 
 /-! ## independence from earlier requests (`Schema._possible_types`) -/
 
